@@ -39,7 +39,7 @@ def plan(tier, seed):
 def make_files(seed, tier):
     r = random.Random(seed)
     knobs = gen.Knobs(items=r.choice([3, 4, 6]), members=r.choice([2, 4]), ns_depth=r.choice([1, 2, 3]))
-    g = gen.WildGen(seed, knobs, typedefs=False, param_use=0.3, this_use=0.05, special_names=0.1)
+    g = gen.WildGen(seed, knobs, typedefs=False, param_use=0.3, this_use=0.05, special_names=0.1, reopen_ns=0.4)
     mod = g.module()
     items = list(mod.items)
     while len(items) < 2:
@@ -51,6 +51,13 @@ def make_files(seed, tier):
     files = []
     for p in parts:
         files.append(render.render(S.Module(tuple(p))).rstrip('\n') + r.choice(ends))
+    # a later file may refer to a template of an earlier one (the MATLAB generator reads the list as one text;
+    # a Python additional file on its own cannot resolve it, with wrap_submodule and with wrap_file alike)
+    early = [it for p in parts[:-1] for it in p if it.k == 'Class' and it.template]
+    if early and r.random() < 0.4:
+        c = r.choice(early)
+        args = ', '.join(r.choice(['int', 'double', 'other::Thing']) for _ in c.template)
+        files[-1] = 'typedef %s<%s> CrossFile%d;\n' % (c.name, args, seed % 1000) + files[-1]
     return mod, parts, files
 
 
@@ -128,9 +135,13 @@ def check_split(seed, tier, acc):
             else:
                 acc.count('pybind_main_failed(decided elsewhere)')
             # ---- submodules
+            shared_w = PybindWrapper(module_name='modx', top_module_namespaces=top, ignore_classes=ign,
+                                     module_template=tool.TPL, use_boost_serialization=opts['ser']) if seed % 2 else None
+            acc.count('submodules_through_one_wrapper_object' if shared_w else 'submodules_through_fresh_wrapper_objects')
             for stem, path, content in zip(stems[1:], paths[1:], files[1:]):
-                w2 = PybindWrapper(module_name='modx', top_module_namespaces=top, ignore_classes=ign,
-                                   module_template=tool.TPL, use_boost_serialization=opts['ser'])
+                # one wrapper object for all additional files, or a fresh one per file: the output may not depend on it
+                w2 = shared_w or PybindWrapper(module_name='modx', top_module_namespaces=top, ignore_classes=ign,
+                                               module_template=tool.TPL, use_boost_serialization=opts['ser'])
                 res = tool.outcome(w2.wrap_submodule, path)
                 alone = tool.outcome(tool.pybind_text, content, top, ign, opts['ser'], 'modx')
                 acc.count('submodule_comparisons')
